@@ -4,17 +4,21 @@ use mv::{c01model::{full_alphabet, run_history, Op}, SplitMix64};
 fn main() {
     let mut seed = 1u64;
     let mut tier = "quick".to_string();
+    let mut shard = 0u64;
     let mut it = std::env::args().skip(1);
     while let Some(a) = it.next() {
         match a.as_str() {
             "--seed" => seed = it.next().and_then(|s| s.parse::<i64>().ok()).unwrap_or(1) as u64,
             "--tier" => tier = it.next().unwrap_or_default(),
+            "--shard" => shard = it.next().and_then(|s| s.parse().ok()).unwrap_or(0),
+            "--shards" => { it.next(); }
+            "--warmup" => return,
             _ => {}
         }
     }
-    let (n_hist, len) = if tier == "thorough" { (4, 150) } else { (1, 100) };
+    let (n_hist, len) = if tier == "thorough" { (2, 120) } else { (1, 60) };
     let alpha = full_alphabet(5);
-    let mut rng = SplitMix64::new(seed).fork(0xC01_3141);
+    let mut rng = SplitMix64::new(seed).fork(0xC01_3141 + shard);
     let mut ops_total = 0u64;
     let mut shadow_ops = 0u64;
     let mut bad = 0;
